@@ -1311,7 +1311,7 @@ func runProgram(src string, recs []*probeRec) (out []string) {
 	select {
 	case <-done:
 		L.Close()
-	case <-time.After(120 * time.Second):
+	case <-hangAfter(120 * time.Second):
 		return []string{"X timeout => program"}
 	}
 	return w.out
